@@ -9,5 +9,8 @@ CONSTANTS N = 3
  SignedGater = FALSE
  InnerProofPolicy = "reject"
  VCBatchPolicy = "none"
+ AggBatchFor = "none"
+ MemoVerifier = FALSE
+ ReplayPolicy = "admit"
 INVARIANTS OnlyValidEnter
 CHECK_DEADLOCK FALSE
